@@ -13,6 +13,14 @@ mod test_utils;
 
 pub use data::*;
 
+/// Re-exports of private pipeline stages for out-of-tree verification harnesses.
+#[cfg(feature = "kiki_verif")]
+pub mod verif_hooks {
+    pub use crate::pipeline::normalize_machine::*;
+    pub use crate::pipeline::prelude::*;
+    pub use crate::pipeline::sort_and_get_index_updater::*;
+}
+
 use pipeline::prelude::*;
 
 pub fn generate(src: &str) -> Result<RustSrc, KikiErr> {
